@@ -128,4 +128,12 @@ CHECKS = {
                  "not asserted: extra frames after the single message of a unary/server-stream request; client-sent frames carrying another protocol's "
                  'terminator flag; envelope prefixes declaring >1 MiB more than present without a read limit'],
  'jobs': [{'pkg': 'c07', 'run': 'TestHostile', 'checks': {'quick': 16000, 'thorough': 800000}, 'shards': {'quick': 8, 'thorough': 16}}]},
+    'C05': {'level': 'exploration',
+ 'assumptions': ["conformance is relative to the harness's reference codec refwire (written from the protocol documents, DESIGN.md §9); where published "
+                 'revisions disagree both readings are accepted',
+                 'grpc-go is not used as a second reference (its dependency set cannot be built together with the harness module offline)'],
+ 'jobs': [{'pkg': 'c05', 'run': 'TestHandlerConformance', 'checks': {'quick': 6000, 'thorough': 240000}, 'shards': {'quick': 4, 'thorough': 16}},
+          {'pkg': 'c05', 'run': 'TestHandlerConformanceNet', 'checks': {'quick': 3000, 'thorough': 96000}, 'shards': {'quick': 4, 'thorough': 16}},
+          {'pkg': 'c05', 'run': 'TestClientConformance', 'checks': {'quick': 6000, 'thorough': 240000}, 'shards': {'quick': 4, 'thorough': 16}},
+          {'pkg': 'c05', 'run': 'TestClientConformanceNet', 'checks': {'quick': 3000, 'thorough': 96000}, 'shards': {'quick': 4, 'thorough': 16}}]},
 }
